@@ -8,7 +8,7 @@ import scipy.sparse.csgraph as csg
 from .. import coqrun as cq
 from .. import gen
 
-TECHNIQUE = 'Coq proofs (unbounded: serial and parallel MIS, MIS colouring, components, BFS; all graphs <= 4 nodes for the rest) + exhaustive small-graph correspondence'
+TECHNIQUE = 'Coq proofs (unbounded: serial and parallel MIS, MIS colouring, components, BFS, Bellman-Ford partial correctness; all graphs <= 4 nodes for the rest) + exhaustive small-graph correspondence'
 LEVEL_TEXT = ('Kernel-checked theorems (Props/C18.v): for EVERY symmetric graph the serial maximal-independent-set '
               'model returns an independent and maximal set (invariant proof, any number of vertices), and the parallel '
               'maximal-independent-set model (any weight type) returns only maximal independent sets and, with integer weights '
@@ -16,7 +16,9 @@ LEVEL_TEXT = ('Kernel-checked theorems (Props/C18.v): for EVERY symmetric graph 
               'MIS-based colouring returns within its fuel and is a proper colouring with colours 0..K-1 on every symmetric graph; '
               'connected_components returns within its fuel and labels two vertices equally exactly when they are connected; '
               'breadth_first_search on EVERY graph (symmetric or not) returns within its fuel, level = hop distance from the seed, -1 exactly '
-              'for unreachable vertices, order lists the reached vertices once; for all '
+              'for unreachable vertices, order lists the reached vertices once; bellman_ford on EVERY weighted directed graph (integer weights '
+              'of either sign, any centres), whenever it returns: every finite distance is the weight of a walk from the recorded centre and no '
+              'walk from any centre is lighter (shortest-walk distance to the nearest centre; unreachable vertices stay infinite); for all '
               'symmetric graphs on <= 4 vertices (bound stated in the theorems, decided by vm_compute over the '
               'complete enumeration) the models of parallel MIS, distance-2 MIS, the three colourings, connected '
               'components, breadth-first search and Bellman-Ford are valid (independent/maximal, proper and gap-free, '
@@ -24,7 +26,7 @@ LEVEL_TEXT = ('Kernel-checked theorems (Props/C18.v): for EVERY symmetric graph 
               'out of fuel.  The models are pinned to the working-tree kernels by exact agreement on every symmetric '
               'graph on <= 5 vertices (6 in the thorough tier) with and without self loops, all seeds/centres, tied '
               'integer weights; csgraph-based oracles decide the property on the public functions.')
-LEVEL_NOTE = ('Unbounded theorems exist for serial and parallel MIS, the MIS colouring, connected components and breadth-first search; the others are bounded (<= 4 vertices) + correspondence. '
+LEVEL_NOTE = ('Unbounded theorems exist for serial and parallel MIS, the MIS colouring, connected components, breadth-first search and (partial correctness) Bellman-Ford; the others, and the fuel of Bellman-Ford, are bounded (<= 4 vertices) + correspondence. '
               'Balanced Bellman-Ford / Lloyd clustering: oracle only.  symmetric_rcm on disconnected graphs read an '
               'uninitialised array (F5), repaired by a fix: commit.')
 RULE = ('complete enumeration of symmetric graphs on 1..5 vertices (1..6 thorough), each without and with stored '
@@ -36,7 +38,7 @@ RULE = ('complete enumeration of symmetric graphs on 1..5 vertices (1..6 thoroug
 RULE += (' '
          'RCM also on the same pattern with nonsymmetric values.')
 TRUSTED = ['scipy.sparse.csgraph (oracle side only)', 'NumPy global RNG for the public randomised functions']
-PARTIAL = ['MIS-k, JP / LDF colourings, Bellman-Ford: theorems bounded to <= 4 vertices',
+PARTIAL = ['MIS-k, JP / LDF colourings, termination of Bellman-Ford within n+2 passes: theorems bounded to <= 4 vertices',
            'balanced Bellman-Ford, Lloyd clustering, center_nodes, floyd_warshall: oracle only']
 REFUTED = []
 HEADER = ('From Coq Require Import ZArith List.\nImport ListNotations.\n'
